@@ -10,7 +10,7 @@ import (
 	zz "rare/pkg/zzverif"
 )
 
-var zzHarnesses = map[string]func(){"H06Open": H06Open, "H06Files": H06Files}
+var zzHarnesses = map[string]func(){"H06Open": H06Open, "H06Files": H06Files, "H05Status": H05Status}
 
 // ---- a ghost file system behind os.Open / (*os.File).Read,Seek,Close and gzip.NewReader ----
 // Under gosym the five library entry points are redirected to the stubs
@@ -239,3 +239,35 @@ func H06Files() {
 	}
 	zz.Reached()
 }
+
+// H05Status (property C05, race freedom): the file dispatcher, its reader
+// goroutines and a consumer that - like every command's render callback -
+// asks the batcher for its status line while batches arrive. Under every
+// interleaving within the bound no two goroutines touch the batcher's state
+// without a happens-before order.
+func H05Status() {
+	zzReset()
+	defer zzCleanup()
+	zzDrawGzip()
+	names := make(chan string, 4)
+	for i := 0; i < 2; i++ {
+		names <- zzAddFile([]string{"f0", "f1"}[i], true, []byte("a\n"))
+	}
+	close(names)
+	zz.AbstractFloatArith(true) // the transfer-rate arithmetic of the status line is not the subject
+	zz.Concurrent(1, zzRacePreempt, 0)
+	zz.RaceMonitor(true)
+	b := OpenFilesToChan(names, false, 1, 1, 4)
+	lines := 0
+	for batch := range b.BatchChan() {
+		lines += len(batch.Batch)
+		if lines == 1 {
+			_ = b.StatusString() // what the periodic render prints under every aggregator
+		}
+	}
+	_ = b.StatusString()
+	zz.Assert(lines == 2, "lines lost")
+	zz.Reached()
+}
+
+func zzByteSize(n uint64) string { return "n" }
